@@ -1705,7 +1705,7 @@ fn static_damage(r: &mut Rng, g: &mut Generated, profile: Profile) -> Option<&'s
         ("notdir", if is_main { 0 } else { 1 }),
         ("perm", if is_main { 0 } else { 3 }),
         ("eio", if is_main { 0 } else { 3 }),
-        ("garbage", content_weight / 2),
+        ("garbage", content_weight),
         ("dangling_link", if is_main { 0 } else { 1 }),
         ("link_loop", if is_main { 0 } else { 1 }),
     ];
@@ -1840,6 +1840,26 @@ fn static_damage(r: &mut Rng, g: &mut Generated, profile: Profile) -> Option<&'s
                 (" 0b; ", Some("garbage_prefixed_int"), 1),
                 (" 1e ", Some("garbage_exponent_float"), 1),
                 (" 2.5e+ ", Some("garbage_exponent_float"), 1),
+                // more spellings of each class (all diagnosed on the lexeme by the unchanged lexer)
+                (" 0x_ ", Some("garbage_prefixed_int"), 1),
+                (" 0b_ ", Some("garbage_prefixed_int"), 1),
+                (" 0o_; ", Some("garbage_prefixed_int"), 1),
+                (" 0xg ", Some("garbage_prefixed_int"), 1),
+                (" 0x. ", Some("garbage_prefixed_int"), 1),
+                (" 1e_ ", Some("garbage_exponent_float"), 1),
+                (" 1E ", Some("garbage_exponent_float"), 1),
+                (" 1_0e ", Some("garbage_exponent_float"), 1),
+                (" .5e ", Some("garbage_exponent_float"), 1),
+                (" 1e-; ", Some("garbage_exponent_float"), 1),
+                (" 1.0E+) ", Some("garbage_exponent_float"), 1),
+                (" OPENQASM 3.x; ", Some("garbage_version"), 1),
+                (" OPENQASM three; ", Some("garbage_version"), 1),
+                (" OPENQASM 3.1.2; ", Some("garbage_version"), 1),
+                (" OPENQASM 3.1x; ", Some("garbage_version"), 1),
+                (" OPENQASM -3; ", Some("garbage_version"), 1),
+                (" _🙂_ ", Some("garbage_invalid_ident"), 1),
+                (" é🙂 ", Some("garbage_invalid_ident"), 1),
+                (" 🙂 ", Some("garbage_invalid_ident"), 1),
                 // version headers without a major number
                 (" OPENQASM .1; ", Some("garbage_version"), 1),
                 (" OPENQASM ; ", Some("garbage_version"), 1),
